@@ -586,3 +586,133 @@ def make_node(repo):
     return cls(repo)
 
 
+
+
+# ----------------------------------------------------------------------------- I/O fault seam
+# Non-verdict configuration only (DESIGN 7.2): data-file errors and interrupts inside a loader.
+class InjectedInterrupt(BaseException):
+    pass
+
+
+class _FaultyFile(object):
+    """A text file that raises EIO after k lines have been handed out."""
+
+    def __init__(self, f, k, state):
+        self._f, self._k, self._state, self._n = f, k, state, 0
+
+    def __iter__(self):
+        return self
+
+    def __next__(self):
+        if self._n >= self._k:
+            self._state["fired"] += 1
+            import errno
+            raise OSError(errno.EIO, "injected EIO after %d lines" % self._k)
+        self._n += 1
+        return next(self._f)
+
+    def readline(self, *a):
+        try:
+            return self.__next__()
+        except StopIteration:
+            return ""
+
+    def read(self, *a):
+        return "".join(self)
+
+    def close(self):
+        self._f.close()
+
+    def __enter__(self):
+        return self
+
+    def __exit__(self, *a):
+        self.close()
+
+    def __getattr__(self, n):
+        return getattr(self._f, n)
+
+
+def install_io_fault(node, kind, target, k):
+    import builtins
+    import errno
+    import numpy
+    data_dir = os.path.dirname(os.path.realpath(node.pt.__file__))
+    state = node.io_state = {"fired": 0, "kind": kind, "target": target, "k": k}
+    saved = node.io_saved = {"open": builtins.open, "loadtxt": numpy.loadtxt, "exists": os.path.exists,
+                             "trace": sys.gettrace()}
+
+    def hit(path):
+        p = os.path.realpath(str(path))
+        return p.startswith(data_dir) and target in os.path.basename(p)
+
+    if kind in ("open_emfile", "read_eio"):
+        def fake_open(path, *a, **kw):
+            if isinstance(path, (str, bytes, os.PathLike)) and hit(path):
+                if kind == "open_emfile":
+                    state["fired"] += 1
+                    raise OSError(errno.EMFILE, "injected EMFILE", str(path))
+                return _FaultyFile(saved["open"](path, *a, **kw), k, state)
+            return saved["open"](path, *a, **kw)
+        builtins.open = fake_open
+
+        def fake_loadtxt(fname, *a, **kw):
+            if isinstance(fname, (str, os.PathLike)) and hit(fname):
+                state["fired"] += 1
+                raise OSError(errno.EMFILE if kind == "open_emfile" else errno.EIO, "injected", str(fname))
+            return saved["loadtxt"](fname, *a, **kw)
+        numpy.loadtxt = fake_loadtxt
+    elif kind == "exists_false":
+        def fake_exists(path):
+            if hit(path):
+                state["fired"] += 1
+                return False
+            return saved["exists"](path)
+        os.path.exists = fake_exists
+    elif kind == "interrupt":
+        # raise at the k-th traced line inside the named module of the package
+        modfile = os.path.join(data_dir, target)
+        count = [0]
+
+        def local(frame, event, arg):
+            if event == "line":
+                count[0] += 1
+                if count[0] == k:
+                    state["fired"] += 1
+                    sys.settrace(None)
+                    raise InjectedInterrupt("injected interrupt at line event %d of %s" % (k, target))
+            return local
+
+        def tracer(frame, event, arg):
+            if event == "call" and frame.f_code.co_filename == modfile and frame.f_code.co_name.startswith(("init", "_update", "energy_dependent")):
+                return local
+            return None
+        sys.settrace(tracer)
+    else:
+        raise ValueError(kind)
+    return "ok"
+
+
+def clear_io_fault(node):
+    import builtins
+    import numpy
+    saved = getattr(node, "io_saved", None)
+    if saved:
+        builtins.open = saved["open"]
+        numpy.loadtxt = saved["loadtxt"]
+        os.path.exists = saved["exists"]
+        sys.settrace(None)
+        node.io_saved = None
+    return {"fired": getattr(node, "io_state", {}).get("fired", 0)}
+
+
+def _ev_iofault(self, kind, target, k):
+    return install_io_fault(self, kind, target, k)
+
+
+def _ev_iofault_clear(self):
+    return clear_io_fault(self)
+
+
+Node.ev_iofault = _ev_iofault
+Node.ev_iofault_clear = _ev_iofault_clear
